@@ -90,9 +90,9 @@ func oracle(h *Hist, out Outcome, refs *refCache) (fails []oracleFail) {
 	consumed := map[int]bool{}
 	prevStore := append([]int(nil), h.Cfg.Pre...)
 	sort.Ints(prevStore)
-	for i, op := range h.Ops {
+	for i, op := range out.Eff {
 		o := out.Obs[i]
-		where := fmt.Sprintf("op %d %s", i, opText(op))
+		where := fmt.Sprintf("sync %d %s", i, opText(op))
 		if o.Result == "panic" {
 			add("panic", "%s panicked: %s", where, o.Panic)
 			continue
@@ -131,6 +131,33 @@ func oracle(h *Hist, out Outcome, refs *refCache) (fails []oracleFail) {
 		}
 		if !failed && h.Cfg.Seg > 0 && op.HookFail >= 0 && op.HookFail < len(o.Hooks) {
 			add("hook-failure-ignored", "%s: segmented sync (segment depth %d): hook call %d called FailSync, yet the sync succeeded", where, h.Cfg.Seg, op.HookFail)
+		}
+		// the hook log: a sync that succeeds hands the hook exactly the blocks from the head
+		// down to (not including) the latest-synced one, newest first, each once, and reports
+		// that many; a sync that fails has handed it at most an initial part of them
+		// (nothing at all when segmentation is off)
+		want := wantedSegment(op.Head, o.Latest0)
+		synced := !failed && (op.Mode == "announce" && nOk > 0 || op.Mode == "explicit" && o.Cid != o.Latest0)
+		switch {
+		case synced:
+			if !reflect.DeepEqual(append([]int{}, o.Hooks...), append([]int{}, want...)) {
+				add("hook-log-not-the-segment", "%s succeeded (latest-sync before: %d): the hook was called for %v, the segment is %v", where, o.Latest0, o.Hooks, want)
+			}
+			for _, e := range o.Events {
+				if !e.Err && e.Count != len(want) {
+					add("event-count-not-segment-length", "%s: SyncFinished.Count = %d, the segment %v has %d blocks", where, e.Count, want, len(want))
+				}
+			}
+		case failed:
+			if len(o.Hooks) > len(want) || !reflect.DeepEqual(append([]int{}, o.Hooks...), append([]int{}, want[:min(len(o.Hooks), len(want))]...)) {
+				add("hook-log-of-failed-sync", "%s failed: the hook was called for %v, not an initial part of the segment %v", where, o.Hooks, want)
+			} else if h.Cfg.Seg == 0 && len(o.Hooks) > 0 {
+				add("hook-called-by-failed-unsegmented-sync", "%s failed without segmentation, yet the hook was called for %v", where, o.Hooks)
+			}
+		default:
+			if len(o.Hooks) > 0 {
+				add("hook-called-without-sync", "%s did not sync anything, yet the hook was called for %v", where, o.Hooks)
+			}
 		}
 		switch op.Mode {
 		case "explicit":
@@ -242,4 +269,19 @@ func shrink(wk runner, refs *refCache, h *Hist, name string) *Hist {
 		}
 	}
 	return cur
+}
+
+// wantedSegment: the blocks a sync of head must hand to the hook when latest is the
+// latest-synced position (0 = none): head, head-1, .. down to latest+1 (to 1 when latest is
+// not below head), computed from the property text, not from the model.
+func wantedSegment(head, latest int) []int {
+	lo := 0
+	if latest > 0 && latest < head {
+		lo = latest
+	}
+	var l []int
+	for p := head; p > lo; p-- {
+		l = append(l, p)
+	}
+	return l
 }
